@@ -98,3 +98,10 @@ func verifB2I(b bool) int {
 	}
 	return 0
 }
+func verifIteInt(c bool, a, b int) int {
+	if c {
+		return a
+	}
+	return b
+}
+func verifCanBe(b bool, label string) {}
